@@ -265,6 +265,11 @@ fn c15_replay(replay: &Json) -> i32 {
 /// Shrinks workload and schedule while the same violation class persists.
 fn c15_minimise(replay: &Json) -> Json {
     sched::install_hook();
+    // a deadlocked simulation leaks its stuck threads and costs the watchdog time: such a case is
+    // reported as found (one confirmation replay in a fresh process), not minimised
+    if replay.get("class").and_then(|c| c.as_str()) == Some("deadlock") {
+        return replay.clone();
+    }
     let (mut w, enabled, first, report) = match c15_replay_once(replay) {
         Ok(x) => x,
         Err(_) => return replay.clone(),
